@@ -208,6 +208,10 @@ def svd_case(st, opts):
         variants.append(("tall", superdiag(sig, st2), "tt", st2, [], torch.float64, None))
     # explicit shape argument (reshape of a flat array)
     variants.append(("flat+shape", superdiag(sig, shape).reshape(-1), "tt", shape, [], torch.float64, list(shape)))
+    # numpy twins of the structured variants (the constructor dispatches on source type x shape form)
+    for name, arr, kind, wN, wM, dt, shp in list(variants):
+        if name in ("operator", "singleton", "flat+shape", "complex", "tall"):
+            variants.append((name + "+numpy", arr.numpy(), kind, wN, wM, dt, shp))
     for name, arr, kind, wN, wM, dt, shp in variants:
         P = mkP(name)
         stats["calls"] = stats.get("calls", 0) + 1
